@@ -76,6 +76,16 @@ func genCodecMeta(r *rng) map[string]string {
 	for i := 0; i < 1+r.intn(3); i++ {
 		m[longMetaKeys[r.intn(len(longMetaKeys))]] = longMetaVals[r.intn(len(longMetaVals))]
 	}
+	// shapes at and beyond what the format can carry: the write paths' gate (Metadata.Validate) decides whether such an
+	// item can be stored at all; whatever it lets through has to survive Save + Load
+	switch x := r.intn(40); {
+	case x < 5:
+		m[strings.Repeat("k", 256+r.intn(80))] = "short value"
+	case x < 10:
+		m["short key"] = strings.Repeat("v", 65536+r.intn(5000))
+	case x == 10:
+		m[strings.Repeat("K", 255)] = strings.Repeat("V", 65535)
+	}
 	return m
 }
 
@@ -114,6 +124,9 @@ func buildIndex(dim, m int, ops []cdOp) *index.Hnsw {
 				for k, v := range o.Meta {
 					md[k] = v
 				}
+			}
+			if md.Validate() != nil {
+				continue // refused by every write path: not a reachable state
 			}
 			idx.Insert(mustUUID(o.Id), f32bitsVec(o.Vec), md, o.Level)
 		case "remove":
@@ -207,7 +220,7 @@ func coqSnapOf(d index.VerifIndexDump) string {
 
 func runC08(a *args) error {
 	r := newRng(a.seed)
-	st := newStats("index states built by 0..30 inserts/removes over 1..10 ids (levels 0..3, M in {1,2,3,16}, dims 1..4), ending empty in 1/6; metadata absent / 20-40 keys / keys and values incl. empty, 255-byte keys, 300- and 1000-byte values, non-UTF-8; each state saved without header; model decodes under 3 fragmentations and re-encodes; real Load through bytes.Buffer, one-byte reader and a random chunker into fresh and used indexes, and through partition.processSnapshot into a partition holding 3 other items; non-trivial = >= 2 live items and >= 1 link or a removal; distinct by hash of the ops")
+	st := newStats("index states built by 0..30 inserts/removes over 1..10 ids (levels 0..3, M in {1,2,3,16}, dims 1..4), ending empty in 1/6; metadata absent / 20-40 keys / keys and values incl. empty, 255-byte keys, 300- and 1000-byte values, non-UTF-8, plus shapes at and beyond the format's bounds that are stored only if Metadata.Validate accepts them; each state saved without header; model decodes under 3 fragmentations and re-encodes; real Load through bytes.Buffer, one-byte reader and a random chunker into fresh and used indexes, and through partition.processSnapshot into a partition holding 3 other items; non-trivial = >= 2 live items and >= 1 link or a removal; distinct by hash of the ops")
 	var cases []cdCase
 	if a.replay != "" {
 		var c cdCase
